@@ -230,3 +230,67 @@ def resToSexp {α} (enc : α → Sexp) : Res α → Sexp
   | .error (.panic site) => .list [.atom "panic", .atom (site.replace " " "-")]
 
 end Chalk
+
+namespace Chalk
+open Sexp
+
+def Variance.toSexp : Variance → Sexp
+  | .co => .atom "co" | .inv => .atom "inv" | .contra => .atom "contra"
+def Variance.ofSexp? : Sexp → Option Variance
+  | .atom "co" => some .co | .atom "inv" => some .inv | .atom "contra" => some .contra
+  | _ => none
+
+def Alias.toSexp : Alias → Sexp
+  | .proj id a => .list [.atom "proj", sNat id, a.toSexp]
+  | .opaque id a => .list [.atom "opaque", sNat id, a.toSexp]
+def Alias.ofSexp? : Sexp → Option Alias
+  | .list [.atom "proj", id, a] => do some (.proj (← id.nat?) (← Args.ofSexp? a))
+  | .list [.atom "opaque", id, a] => do some (.opaque (← id.nat?) (← Args.ofSexp? a))
+  | _ => none
+
+def DomainGoal.toSexp : DomainGoal → Sexp
+  | .holds w => .list [.atom "holds", w.toSexp]
+  | .wfTrait tr a => .list [.atom "wf-trait", sNat tr, a.toSexp]
+  | .wfTy t => .list [.atom "wf-ty", t.toSexp]
+  | .fromEnvTrait tr a => .list [.atom "from-env-trait", sNat tr, a.toSexp]
+  | .fromEnvTy t => .list [.atom "from-env-ty", t.toSexp]
+  | .normalize al t => .list [.atom "normalize", al.toSexp, t.toSexp]
+  | .isLocal t => .list [.atom "is-local", t.toSexp]
+  | .isUpstream t => .list [.atom "is-upstream", t.toSexp]
+  | .isFullyVisible t => .list [.atom "is-fully-visible", t.toSexp]
+  | .localImplAllowed tr a => .list [.atom "local-impl-allowed", sNat tr, a.toSexp]
+  | .compatible => .atom "compatible"
+  | .downstreamType t => .list [.atom "downstream-type", t.toSexp]
+  | .reveal => .atom "reveal"
+  | .objectSafe tr => .list [.atom "object-safe", sNat tr]
+
+def DomainGoal.ofSexp? : Sexp → Option DomainGoal
+  | .list [.atom "holds", w] => do some (.holds (← WC.ofSexp? w))
+  | .list [.atom "wf-trait", tr, a] => do some (.wfTrait (← tr.nat?) (← Args.ofSexp? a))
+  | .list [.atom "wf-ty", t] => do some (.wfTy (← Ty.ofSexp? t))
+  | .list [.atom "from-env-trait", tr, a] => do some (.fromEnvTrait (← tr.nat?) (← Args.ofSexp? a))
+  | .list [.atom "from-env-ty", t] => do some (.fromEnvTy (← Ty.ofSexp? t))
+  | .list [.atom "normalize", al, t] => do some (.normalize (← Alias.ofSexp? al) (← Ty.ofSexp? t))
+  | .list [.atom "is-local", t] => do some (.isLocal (← Ty.ofSexp? t))
+  | .list [.atom "is-upstream", t] => do some (.isUpstream (← Ty.ofSexp? t))
+  | .list [.atom "is-fully-visible", t] => do some (.isFullyVisible (← Ty.ofSexp? t))
+  | .list [.atom "local-impl-allowed", tr, a] => do some (.localImplAllowed (← tr.nat?) (← Args.ofSexp? a))
+  | .atom "compatible" => some .compatible
+  | .list [.atom "downstream-type", t] => do some (.downstreamType (← Ty.ofSexp? t))
+  | .atom "reveal" => some .reveal
+  | .list [.atom "object-safe", tr] => do some (.objectSafe (← tr.nat?))
+  | _ => none
+
+/-- `(udb (<variance list of adt 0> <of adt 1> ...) (<of fndef 0> ...))`; ids beyond the lists
+    have the empty list -/
+def variancesOfSexp? : Sexp → Option (List Variance)
+  | .list xs => xs.mapM Variance.ofSexp?
+  | _ => none
+
+def varianceTableOfSexp? : Sexp → Option (List (List Variance))
+  | .list xs => xs.mapM variancesOfSexp?
+  | _ => none
+
+def resBoolToSexp : Res Bool → Sexp := resToSexp sBool
+
+end Chalk
